@@ -63,7 +63,8 @@ def gen(rng, tier):
     cases = []
     versions = [None, b"8", b"12", b"13"]
     keys = ["absent", "valid", "dup"]
-    conns = [b"Upgrade", b"upgrade", b"keep-alive, Upgrade", b"UPGRADE"]
+    # the last two: one list on two header lines (RFC 7230 3.2.2)
+    conns = [b"Upgrade", b"upgrade", b"keep-alive, Upgrade", b"UPGRADE", b"Upgrade\r\nConnection: keep-alive", b"keep-alive\r\nConnection: upgrade"]
     upgs = [b"websocket", b"WebSocket", b"WEBSOCKET"]
     httpvs = ["1.1", "1.1", "1.0", "2"]
     protos = [None, [b"chat"], [b"chat", b"superchat"]]
